@@ -9,6 +9,7 @@ use crate::util::{self, Out, Rng};
 use crate::Args;
 
 pub mod addr;
+pub mod blk;
 pub mod bufs;
 pub mod composite;
 pub mod config;
@@ -246,6 +247,7 @@ pub fn run(a: &Args) -> i32 {
         "addr" => run_comp(a, &mut addr::AddrComp),
         "life" => run_comp(a, &mut life::LifeComp),
         "sq" => run_comp(a, &mut sq::SqComp),
+        "blk" => run_comp(a, &mut blk::BlkComp),
         "wake" => run_comp(a, &mut wake::WakeComp),
         "bufs" => run_comp(a, &mut bufs::BufsComp),
         "composite" => run_comp(a, &mut composite::CompositeComp),
